@@ -4,6 +4,19 @@ import json, os
 HERE = os.path.dirname(os.path.dirname(os.path.abspath(__file__)))
 
 CLAIMED = {
+    "C11": dict(
+        technique="A3 site rule + const-evaluated encode-set bitmask + sanitizer must-pass-through over MIR paths + writer/reader table agreement",
+        text="Decides structural necessary conditions of the round trip: no panic site in matrix_uri parsing; the path-segment encode set covers '/', '?', '#', '%'; "
+             "every identifier byte and every free-text query value is written through an encoder; written type words and query keys are the ones the reader maps back "
+             "to the same sigil/field. Round-trip equality for all values is NOT decided.",
+        note="Trusted: percent-encoding, form_urlencoded, url crates.",
+        design="DESIGN.md §4 C11"),
+    "C13": dict(
+        technique="error-atomicity path rule (A7) + index-bound provenance rule + decision-table evaluation of the refusal conditions (32 valuations) + sibling agreement over the five kinds",
+        text="Decides: no Err path mutates a set; move_index arguments are bounded by len; refusal conditions equal the documented ones; default positions; enabled flag kept by all kinds. "
+             "Does NOT decide the resulting order after arbitrary operation sequences.",
+        note="Trusted: indexmap semantics.",
+        design="DESIGN.md §4 C13"),
     "C10": dict(
         technique="sibling-agreement over every macro expansion (validate-before-construct on MIR paths) + pointer-cast shape rules + who-may-call classification + A3 site rules + boundary evaluation of the length atom",
         text="Decides: all generated constructors of each validated identifier type call the same validate on the same string before any unchecked "
